@@ -151,3 +151,30 @@ def direct(v, args, i):
     if isabs(args[i - 1]):
         return app1(direct(v, args, i - 1), args[i - 1])
     return direct(v, args, i - 1) + unit(args[i - 1])
+
+
+# ---- extend_preserving_lflags: the split of a batch into library flags (-l… / -L… not in the class's always-dedup table) and the rest
+@REG.spec([SeqS, Str], Bool)
+def islf(tab, a):
+    """a is one of the flags extend_preserving_lflags keeps verbatim: it starts with -l or -L and is not in the always-dedup table"""
+    return a not in tab and (a.startswith('-l') or a.startswith('-L'))
+
+
+@REG.spec([SeqS, SeqS, Int], SeqS)
+def nfl(tab, args, i):
+    """the arguments among args[:i] that go through the ordinary +=, in order"""
+    if i <= 0:
+        return EMPTY
+    if islf(tab, args[i - 1]):
+        return nfl(tab, args, i - 1)
+    return nfl(tab, args, i - 1) + unit(args[i - 1])
+
+
+@REG.spec([SeqS, SeqS, Int], SeqS)
+def lfl(tab, args, i):
+    """the library flags among args[:i], in order"""
+    if i <= 0:
+        return EMPTY
+    if islf(tab, args[i - 1]):
+        return lfl(tab, args, i - 1) + unit(args[i - 1])
+    return lfl(tab, args, i - 1)
